@@ -469,6 +469,44 @@ def rule_l6(ctx):
         if ok:
             res.ok({"function": fid, "verdict": "as_bits dominated by the true edge of is_of_type on the same literal"})
             continue
+        # the literal is the Ok result of Literal::parse against a type: parse ends in check_type, which is its gate (since the repairs
+        # of 10.7 - range ends, untyped ranges, duplicated fields - it refuses everything is_of_type refuses; GarbleProgram::parse_arg
+        # has always relied on it alone)
+        if lit and all(r[0] == "call" and str(r[2]).endswith("Try>::branch") or (r[0] == "call" and str(r[2]) == "literal::Literal::parse") for (r, p) in lit):
+            parsed = True
+            for (r, p) in lit:
+                if str(r[2]).endswith("Try>::branch"):
+                    src = body.deep_sources(body.term(r[1])["args"][0], 3)
+                    if not any(rr[0] == "call" and str(rr[2]) == "literal::Literal::parse" for (rr, pp) in src):
+                        parsed = False
+            if parsed:
+                res.ok({"function": fid, "verdict": "the encoded literal is the Ok result of Literal::parse (check_type is its gate)"})
+                continue
+        # a private helper that encodes its parameter: every call site must hand it a gated literal
+        params = [r[1] for (r, p) in lit if r[0] == "arg" and not p]
+        if lit and len(params) == len(lit) and not f.get("pub"):
+            sites, all_gated = 0, True
+            for g in ctx.facts["fns"]:
+                if "mir" not in g or g.get("from_expansion"):
+                    continue
+                gbody = ctx.body(g["id"])
+                for cb_, ct in gbody.calls():
+                    if mir.callee(ct) != fid or gbody.blocks[cb_]["cleanup"]:
+                        continue
+                    sites += 1
+                    for i in params:
+                        a = ct["args"][i - 1]
+                        alit = {(r, tuple(p)) for (r, p) in gbody.trace_operand(a)} if a["k"] in ("copy", "move") else set()
+                        gated = any((alit & {(r, tuple(p)) for (r, p) in gbody.trace_operand(gt["args"][0])}) and _dominated_by_edges(gbody, _some_edges(gbody, gt), cb_)
+                                    for gb2, gt in gbody.calls() if mir.callee(gt) == IS_OF_TYPE)
+                        parsed = bool(alit) and all(any(rr[0] == "call" and str(rr[2]) == "literal::Literal::parse" for (rr, pp) in
+                                                        (gbody.deep_sources(gbody.term(r[1])["args"][0], 3) if str(r[2]).endswith("Try>::branch") else {(r, p)}))
+                                                    for (r, p) in alit if r[0] == "call") and all(r[0] == "call" for (r, p) in alit)
+                        if not (gated or parsed):
+                            all_gated = False
+            if sites and all_gated:
+                res.ok({"function": fid, "verdict": "helper: all %d call sites pass a literal accepted by is_of_type or produced by Literal::parse" % sites})
+                continue
         # a wrapper that only holds an already gated literal: its constructor sites must be gated
         if mir.last_seg(fid) == "as_bits" and "GarbleArgument" in (f.get("inputs") or [""])[0]:
             ctor_ok = True
